@@ -93,10 +93,13 @@ fn family_match(r: &mut StdRng, scn: usize, fam: &str, n_req: usize, out: &mut V
       }
     }
   }
+  let mut phrases = if fam == "query" { boundary_phrases(&b, r, 4) } else { Vec::new() };
   for _ in 0..n_req {
     let (q, filt) = if fam == "filter" {
       let fd = r.gen_range(1..=3);
       (Q::All, Some(gen_filter(r, fd, true, "")))
+    } else if let Some(q) = phrases.pop() {
+      (q, None)
     } else {
       let depth = r.gen_range(0..=cfg.depth);
       (gen_query(r, depth, &cfg), if chance(r, 1, 4) { Some(gen_filter(r, 1, true, "")) } else { None })
@@ -125,6 +128,34 @@ fn family_match(r: &mut StdRng, scn: usize, fam: &str, n_req: usize, out: &mut V
 
 /// C14: the same battery of queries and filters before and after compaction; both runs are judged
 /// by the absolute oracle (hence must agree with each other).
+/// Phrase queries that span the boundary between two members of a multi-valued text field
+/// (positions continue across members with a gap, also across empty members).
+fn boundary_phrases(b: &Built, r: &mut StdRng, max: usize) -> Vec<Q> {
+  let mut out = Vec::new();
+  for d in b.versions.values() {
+    for f in TEXT_FIELDS {
+      if let Some(Value::Array(a)) = d.get(f) {
+        let members: Vec<&str> = a.iter().filter_map(|v| v.as_str()).collect();
+        for i in 0..members.len() {
+          let Some(w1) = members[i].split_whitespace().last() else { continue };
+          let Some(w2) = members[i + 1..].iter().find_map(|m| m.split_whitespace().next()) else { continue };
+          let slop = match r.gen_range(0..4) {
+            0 => Some(1),
+            1 => Some(0),
+            _ => None,
+          };
+          out.push(Q::Phrase { field: Some(f.to_string()), terms: vec![w1.to_string(), w2.to_string()], slop });
+        }
+      }
+    }
+    if out.len() >= max {
+      break;
+    }
+  }
+  out.truncate(max);
+  out
+}
+
 fn family_compact(r: &mut StdRng, scn: usize, n_req: usize, out: &mut Vec<Value>) -> Result<usize> {
   let mut knobs = Knobs::default();
   knobs.max_commits = 4;
@@ -141,6 +172,8 @@ fn family_compact(r: &mut StdRng, scn: usize, n_req: usize, out: &mut Vec<Value>
       }
     })
     .collect();
+  let mut battery = battery;
+  battery.extend(boundary_phrases(&b, r, 6).into_iter().map(|q| (q, None)));
   let mut total = 0;
   for phase in 0..2 {
     if phase == 1 {
